@@ -35,12 +35,20 @@ type target struct {
 	Funcs []string // "Func" or "Recv.Method"
 	// receivers that are not translated as structures: the fields a method reads become parameters
 	OpaqueRecv []string
+	// "Func.param": a slice parameter the function writes through AND reassigns, so that what the caller's slice
+	// holds afterwards is not modelled. A caller must pass a variable and may not read it again before assigning it
+	// (the translation shadows it with `()`, so that a stale read does not type-check).
+	Consume []string
+	// "Func.param": a function-typed parameter whose calls have effects the caller observes (a callback closing over
+	// the caller's variables). It is translated as `σ → args → Go.M (σ × results)`; the state is threaded through
+	// the function, which takes the initial state as an extra parameter and returns the final one as an extra result.
+	Stateful []string
 }
 
 var targets = []target{
 	{Pkg: "go.brendoncarroll.net/p2p/p/kademlia", Funcs: []string{"min", "LeadingZeros", "XORBytes", "HasPrefix",
-		"Distance", "DistanceCmp", "DistanceLt", "DistanceGt", "DistanceLz", "Cache.bucketIndex"},
-		OpaqueRecv: []string{"Cache"}},
+		"Distance", "DistanceCmp", "DistanceLt", "DistanceGt", "DistanceLz", "Cache.bucketIndex", "pop", "contains", "dhtIterate"},
+		OpaqueRecv: []string{"Cache"}, Consume: []string{"pop.xs", "dhtIterate.nodes"}, Stateful: []string{"dhtIterate.fn"}},
 	{Pkg: "go.brendoncarroll.net/p2p/p/mbapp", Funcs: []string{"mask", "maskInverse", "newBitMap", "bitMap.len",
 		"bitMap.set", "bitMap.get", "bitMap.allSet", "ParseMessage", "getBit", "setBit", "unsetBit",
 		"Header.getUint32", "Header.setUint32", "Header.updateUint32", "Header.getUint32Bit", "Header.setUint32Bit",
@@ -60,6 +68,9 @@ var targets = []target{
 	{Pkg: "go.brendoncarroll.net/p2p", Funcs: []string{"VecSize", "VecBytes"}},
 	{Pkg: "golang.zx2c4.com/wireguard/replay", Funcs: []string{"Filter.Reset", "Filter.ValidateCounter"}},
 }
+
+// sigmaType: the type of the state of a stateful callback (Lean: the implicit type parameter σ)
+var sigmaType = types.NewNamed(types.NewTypeName(token.NoPos, nil, "σ", nil), types.NewStruct(nil, nil), nil)
 
 type unsupported struct {
 	pos token.Pos
@@ -151,7 +162,13 @@ func run(repo string, w io.Writer) (err error) {
 		if err != nil {
 			return fmt.Errorf("type-check %s: %v", t.Pkg, err)
 		}
-		p := &pkgInfo{path: t.Pkg, short: tp.Name(), info: info, tpkg: tp, opaque: map[string]bool{}}
+		p := &pkgInfo{path: t.Pkg, short: tp.Name(), info: info, tpkg: tp, opaque: map[string]bool{}, consume: map[string]bool{}, stateful: map[string]bool{}}
+		for _, c := range t.Consume {
+			p.consume[c] = true
+		}
+		for _, c := range t.Stateful {
+			p.stateful[c] = true
+		}
 		for _, o := range t.OpaqueRecv {
 			p.opaque[o] = true
 		}
@@ -258,6 +275,8 @@ type pkgInfo struct {
 	info        *types.Info
 	tpkg        *types.Package
 	opaque      map[string]bool
+	consume     map[string]bool
+	stateful    map[string]bool
 }
 
 type structInfo struct {
@@ -275,6 +294,9 @@ type fnInfo struct {
 	obj     *types.Func
 	params  []*types.Var // receiver first
 	mut     []bool
+	consume []bool
+	// stateful callback parameters: the synthetic variable holding the callback's state
+	cbState map[*types.Var]*types.Var
 	results []*types.Var
 	// opaque receiver: fields read become parameters
 	opaqueRecv   *types.Var
@@ -332,6 +354,17 @@ func (g *gen) addFunc(p *pkgInfo, name string, fd *ast.FuncDecl) {
 		fi.results = append(fi.results, sig.Results().At(i))
 	}
 	fi.mut = make([]bool, len(fi.params))
+	fi.consume = make([]bool, len(fi.params))
+	fi.cbState = map[*types.Var]*types.Var{}
+	for i, v := range fi.params {
+		fi.consume[i] = p.consume[name+"."+v.Name()]
+		if p.stateful[name+"."+v.Name()] {
+			if len(fi.cbState) > 0 {
+				g.fail(fd, "more than one stateful callback")
+			}
+			fi.cbState[v] = types.NewVar(v.Pos(), nil, v.Name()+"_st", sigmaType)
+		}
+	}
 	g.fns[fi.key] = fi
 	g.order = append(g.order, fi)
 }
